@@ -195,3 +195,18 @@ prop("C13",
      stages=[
          {"name": "main", "build": "fast", "bin": "c13"},
      ])
+
+prop("C14",
+     technique="runtime monitoring: queue reference model over exhaustively enumerated next()/next_frames() interleavings from every pre-filled ring state, origin-identifying frame values, source pull counting; Miri and ASan stages",
+     level_text=("Capacities 1..=5 x every (start offset, pre-fill length) accepted by Bounded::from_raw_parts x source lengths 0..=12 x every sequence of 4 (quick) / 5 (thorough) "
+                 "operations from {next, next_frames().take(j), j in 0..=cap+1}, finishing alternately with into_parts and a drain to exhaustion; random histories with "
+                 "capacities to 40. After every operation: returned frames (values identify pre-fill / source index / padding / dead slot), source pulls (a refill is "
+                 "exactly `capacity` pulls and only on empty), is_exhausted. Exploration: capacities and histories are unbounded."),
+     level_note="trusted: VecDeque queue model; the padding bound is only asserted for drains of a signal that was never pulled after reporting exhaustion",
+     rule=("cases are (cap, start, prefill, source length, operation sequence, finisher); enumerated completely to the stated bounds, random beyond; non-trivial = pre-filled "
+           "or wrapped ring (the doc-tests use start 0 and frame-by-frame or whole-batch consumption only); distinct by hash of the case; evaluations = operations checked"),
+     stages=[
+         {"name": "main", "build": "fast", "bin": "c14"},
+         {"name": "miri", "build": "miri-sb", "bin": "c14", "shards": {"quick": 8, "thorough": 16}, "set": {"seq": {"quick": 2, "thorough": 3}}, "timeout": {"quick": 1500, "thorough": 7200}},
+         {"name": "asan", "build": "asan", "bin": "c14"},
+     ])
